@@ -122,6 +122,54 @@ func vpEnumNodeLabel() [][]any {
 	return out
 }
 
+// records with several interfaces under the leak collector: running pods with 2-3 interfaces (trunk mode: Member
+// interfaces, the kind gcMemberENI lists; created by the controllers and then aged past the grace period, or present
+// from the start), and unbound fixed-IP records with several Available interfaces
+func vpEnumMultiEni() [][]any {
+	var out [][]any
+	add := func(sc ...any) { out = append(out, sc) }
+	pc, ec := func(n int) vt.M { return vpCallStep("pc", n) }, func(n int) vt.M { return vpCallStep("ec", n) }
+	gcl, gcla, gcr := vpCallStep("gcl", 0), vpCallStep("gcla", 0), vpCallStep("gcr", 0)
+	dm := func(n int) vt.M { return vpEnv("daemon", n) }
+	old := vt.M{"a": "elapse", "ms": vpGraceMs + 3000}
+	for _, kinds := range [][]string{{"elastic", "elastic"}, {"elastic", "elastic", "elastic"}, {"never", "short"}, {"short", "elastic", "never"}} {
+		for _, trunk := range []bool{true, false} {
+			own := "sts"
+			add(vt.M{"a": "conf", "names": 2, "trunk": trunk}, vpCreate(1, 1, own, kinds...), vpCreate(2, 2, own, kinds[0]), pc(1), pc(2), ec(1), ec(2), dm(1), gcl, gcla,
+				old, gcl, gcla, dm(1), dm(2), gcr, gcl, vpEnv("pod_gone", 1), pc(1), ec(1), gcl, gcla, ec(1), old, gcl, gcla)
+		}
+	}
+	// present from the start: bound records of running pods, Member interfaces InUse, old
+	for _, cnt := range []int{2, 3} {
+		for _, typ := range []string{"Member", "Secondary"} {
+			var enis, a1, k1 []any
+			for e := 1; e <= cnt; e++ {
+				enis = append(enis, vt.M{"e": e, "tag": "ours", "age": 86400000, "st": "InUse", "typ": typ, "inst": 1})
+				a1 = append(a1, vpAlloc("elastic", e))
+				k1 = append(k1, vpAlloc("elastic", 0))
+			}
+			enis = append(enis, vt.M{"e": cnt + 1, "tag": "ours", "age": 86400000, "st": "InUse", "typ": typ, "inst": 2},
+				vt.M{"e": cnt + 2, "tag": "ours", "age": 86400000, "st": "InUse", "typ": typ, "inst": 2}) // the last one is really leaked
+			add(vt.M{"a": "conf", "names": 2, "trunk": typ == "Member", "enis": enis,
+				"pods": vpL(vt.M{"n": 1, "uid": 1, "node": 1, "kind": k1, "owner": "sts"}, vt.M{"n": 2, "uid": 2, "node": 2, "kind": vpKind("elastic"), "owner": "sts"}),
+				"recs": vpL(vt.M{"n": 1, "phase": "Bind", "uid": 1, "node": 1, "allocs": a1, "seen": -1},
+					vt.M{"n": 2, "phase": "Bind", "uid": 2, "node": 2, "allocs": vpL(vpAlloc("elastic", cnt+1)), "seen": -1})},
+				dm(1), gcl, gcla, dm(1), gcr, gcl)
+		}
+	}
+	// unbound fixed-IP records with several Available interfaces
+	for _, kinds := range [][]string{{"never", "never"}, {"long", "never", "long"}} {
+		var enis, a1 []any
+		for i, k := range kinds {
+			enis = append(enis, vt.M{"e": i + 1, "tag": "ours", "age": 86400000, "st": "Available", "typ": "Secondary", "inst": 0})
+			a1 = append(a1, vpAlloc(k, i+1))
+		}
+		add(vt.M{"a": "conf", "names": 1, "enis": enis, "recs": vpL(vt.M{"n": 1, "phase": "Unbind", "uid": 1, "node": 1, "allocs": a1, "seen": 5000})},
+			gcl, gcla, vpCreate(1, 2, "sts", kinds...), pc(1), pc(1), pc(1), ec(1), dm(1), gcl, gcla)
+	}
+	return out
+}
+
 // ---------------------------------------------------------------------------- enumerated families
 
 func vpEnumerated(which string) [][]any {
@@ -132,6 +180,7 @@ func vpEnumerated(which string) [][]any {
 	thorough := vt.Thorough()
 	out = append(out, vpEnumLife()...)
 	out = append(out, vpEnumNodeLabel()...)
+	out = append(out, vpEnumMultiEni()...)
 	out = append(out, vpEnumTTL(thorough)...)
 	out = append(out, vpEnumPopulations()...)
 	return out
@@ -372,6 +421,9 @@ func vpRandom(i int64) []any {
 		}
 	}
 	conf["recs"], conf["enis"] = recs, enis
+	if r.Intn(3) == 0 {
+		conf["trunk"] = true
+	}
 	labelled := r.Intn(2) == 0
 	if labelled {
 		conf["eniOnly"] = vpL(1, 2)
